@@ -218,6 +218,12 @@ class C02(Prop):
     pid = "C02"
     panic_neutral = True
 
+    def agree(self, case, il, ml):
+        # only inputs the library accepts are judged by this property
+        if not il.startswith("OK "):
+            return True
+        return self.view(case, il) == self.view(case, ml)
+
     def streams(self, tier, rng):
         n = 600 if tier == "quick" else 6000
         s = dns_d_streams(rng, n, tier)
@@ -313,11 +319,11 @@ class C03(Prop):
         return s
 
     def agree(self, case, il, ml):
-        if il.startswith("PANIC"):
+        # one-sided property: only inputs the LIBRARY accepts are judged (what it rejects is C04's subject)
+        if not il.startswith("OK "):
             return True
         if case.startswith("W "):
-            # one-sided: library accepts => the Coq reference decoder accepts with the same value
-            return (not il.startswith("OK ")) or il == ml
+            return il == ml
         return self.view(case, il) == self.view(case, ml)
 
     def view(self, case, line):
@@ -834,6 +840,12 @@ class C07(Prop):
 class C09(Prop):
     pid = "C09"
     panic_neutral = True
+
+    def agree(self, case, il, ml):
+        # only inputs the library accepts are judged by this property
+        if not il.startswith("OK "):
+            return True
+        return self.view(case, il) == self.view(case, ml)
 
     def streams(self, tier, rng):
         n = 300 if tier == "quick" else 3000
